@@ -379,8 +379,38 @@ type c19case struct {
 	Text []string `json:"text,omitempty"`
 }
 
+var c19readable, c19readableKnown bool
+
+func c19stateReadable(pc *slog.PrintCtx) bool {
+	if !c19readableKnown {
+		c19readable = !slog.VerifTry(func() { slog.VerifPCState(pc) })
+		c19readableKnown = true
+	}
+	return c19readable
+}
+
+func c19refHidden(ref bufAPI) (roff, rlast int64) {
+	roff, rlast = -1, -1
+	if rb, ok := ref.(*bytes.Buffer); ok {
+		rv := reflect.ValueOf(rb).Elem()
+		if f := rv.FieldByName("off"); f.IsValid() && f.CanInt() {
+			roff = f.Int()
+		}
+		if f := rv.FieldByName("lastRead"); f.IsValid() && f.CanInt() {
+			rlast = f.Int()
+		}
+	}
+	return
+}
+
 func c19key(impl bufAPI, ref bufAPI) string {
 	pc := impl.(*slog.PrintCtx)
+	if !c19stateReadable(pc) {
+		// the tree under check stores the buffer in fields the harness cannot read: the key is what the exported interface shows
+		// plus the reference's hidden state (a coarser merge - fewer states are expanded, every comparison stays what it is)
+		roff, rlast := c19refHidden(ref)
+		return fmt.Sprintf("visible|%d|%x|%x|%d|%d", impl.Len(), impl.Bytes(), ref.Bytes(), roff, rlast)
+	}
 	content, off, ln, cp, lr := slog.VerifPCState(pc)
 	// the reference's hidden state is part of the key as well: two histories may leave the implementation in one state and
 	// bytes.Buffer in two (what a later UnreadByte / UnreadRune does depends on it)
